@@ -45,6 +45,7 @@ func malformedAST(sexpr string) string {
 func c04Judge(r *mon.Run, t *mon.Tally, wl string, idx int, lexemes []string, types []gen.TokType, rec *ref.Recognizer) (bool, bool) {
 	expr := strings.Join(lexemes, " ")
 	t.Eval()
+	poison(idx)
 	jp, o := apiCompile(expr)
 	gram := rec.Run(types, ref.Relax{})
 	if o.Panicked {
@@ -77,6 +78,18 @@ func c04Judge(r *mon.Run, t *mon.Tally, wl string, idx int, lexemes []string, ty
 		}
 	default:
 		t.Count("agree: rejected")
+		// "and therefore Search": the one-shot entry point rejects it too, whatever the document holds - also a
+		// member named exactly like the expression text
+		if idx%4 == 0 || wl != "exhaustive" {
+			for _, e := range []string{expr, gen.JoinTight(lexemes)} { // (JoinTight keeps the token sequence)
+				so := apiSearch(e, map[string]interface{}{e: "member named like the expression", "a": map[string]interface{}{e: float64(1)}})
+				if !so.Panicked && so.Err == nil {
+					r.Violate(&mon.Violation{Workload: wl, Index: idx, API: "Search", Expr: e, DocDesc: "an object with a member named exactly like the expression text",
+						Expected: "rejected like Compile rejects it", Observed: so.String(), Class: "one-shot Search accepts what Compile rejects"})
+					break
+				}
+			}
+		}
 	}
 	return gram, accepted
 }
